@@ -39,6 +39,33 @@ def isinstance_classes(fi: FuncInfo) -> set[str]:
     return out
 
 
+def json_converters_exhaustive(project, res: Resolver) -> tuple[bool, str]:
+    """premise of C20 R20.5's exemption for json.dumps / yaml.dump in the eject tool: the JSON-side converters of mcp.eject have a
+    branch for every node kind and every value kind (the same sets R14.1 requires), so that their result contains only plain
+    JSON types. Returns (holds, what is missing)."""
+    m = project.mod("mcp.eject")
+    missing = []
+    for qual, kind in (("_ast_to_dict", "nodes"), ("_convert_block", "nodes"), ("_convert_value", "values")):
+        if not m.has_func(qual):
+            return False, f"{qual} not found"
+        fi = m.func(qual)
+        cl = isinstance_classes(delegate_of(fi, res) or fi)
+        # dispatch through a type-keyed table of the module (`TABLE.get(type(v))` / `for cls, f in TABLE`) counts as its keys
+        for nm in {x.id for x in walk_no_nested(fi.node) if isinstance(x, ast.Name)}:
+            if m.has_const(nm):
+                try:
+                    t = m.const_node(nm)
+                except Exception:  # noqa: BLE001
+                    continue
+                if isinstance(t, ast.Dict):
+                    cl |= {k.id for k in t.keys if isinstance(k, ast.Name)}
+                elif isinstance(t, (ast.Tuple, ast.List)):
+                    cl |= {r.elts[0].id for r in t.elts if isinstance(r, ast.Tuple) and r.elts and isinstance(r.elts[0], ast.Name)}
+        need = CONTENT_NODE_KINDS if kind == "nodes" else VALUE_KINDS + PLAIN_VALUE_KINDS
+        missing += [f"{qual}: {k}" for k in need if k not in cl]
+    return (not missing), ", ".join(missing)
+
+
 def delegate_of(fi: FuncInfo, res: Resolver) -> FuncInfo | None:
     """wrapper idiom: a function whose body is only (imports and) one call `[return] impl(<its own parameters>)` IS impl"""
     body = [s for s in fi.node.body if not (isinstance(s, ast.Expr) and isinstance(s.value, ast.Constant)) and not isinstance(s, (ast.Import, ast.ImportFrom))]  # type: ignore[attr-defined]
